@@ -99,6 +99,14 @@ def trees(tier):
             for eff in ("", "STL"):
                 yield mk("TX", "S", "0", "return", [mk(k, eff, v1, "valmix"), mk(k, eff, v2, "valmix", twin=True)])
                 yield mk("TX", "S", "0", "return", [mk("CALL", "S", "x", "return", [mk(k, eff, "fwd" if v1 == "x" else v1, "valmix"), mk(k, eff, "fwd" if v2 == "x" else v2, "valmix", twin=True)])])
+    # value-bearing calls inside a static frame: CALL with a non-zero value is a state change (the frame fails), CALLCODE moves nothing
+    # and is legal (EIP-214 names CALL only); directly under the STATICCALL and with a CALL / DELEGATECALL frame in between
+    for kind in ("CALLCODE", "CALL"):
+        for v in ("k1", "0"):
+            leaf = mk(kind, "", v, "return")
+            yield mk("TX", "S", "0", "return", [mk("STATICCALL", "", "0", "return", [leaf])])
+            for mid in ("CALL", "DELEGATECALL"):
+                yield mk("TX", "S", "0", "return", [mk("STATICCALL", "", "0", "return", [mk(mid, "", "0", "return", [mk(kind, "", v, "return")])])])
     # callees that hand back fewer bytes than the caller's return window (which the caller has filled beforehand)
     for kind in ("CALL", "STATICCALL", "DELEGATECALL", "CALLCODE"):
         for oc in ("short", "shortrev"):
